@@ -106,6 +106,10 @@ pub struct KeygenTrace {
     pub seed_draws: u64,
     pub attempts: u64,
     pub ambient_draws: u64,
+    /// candidates rejected because f or g did not fit its field
+    pub reject_fg_range: u64,
+    /// candidates rejected because F or G did not fit eight bits
+    pub reject_cap_range: u64,
 }
 
 /// `keygen(seed)` under a draw bound; `ambient` optionally installs a stream
@@ -138,6 +142,8 @@ pub fn keygen_sim<V: Variant>(
     let tr = KeygenTrace {
         seed_draws: s.seed_stream_draws,
         attempts: s.probe_count("ntru_gen.attempt"),
+        reject_fg_range: s.probe_count("ntru_gen.reject_fg_range"),
+        reject_cap_range: s.probe_count("ntru_gen.reject_FG_range"),
         ambient_draws: stream.as_ref().map(|s| s.borrow().draws).unwrap_or(0),
     };
     (r, tr)
